@@ -410,6 +410,20 @@ fn varied_pci_case(ctx: &mut Ctx, d: Drv) -> PciCase {
     PciCase { c, cfg_present, geo: drivers::PciGeo { common_off, isr_off, cfg_off, notify_off, notify_len, mult, noffs, init_status, checking_status: ctx.rng.chance(1, 2) } }
 }
 
+/// every driver constructed with each subset of the ring features (monitor 852: the flags of every VirtQueue::new are the
+/// negotiated bits) and its gated operations run on it (monitor 853: an indirect table only if negotiated): also run under C01
+pub fn run_ring_features(ctx: &mut Ctx) {
+    for d in drivers::ALL {
+        ctx.tr.scenario(&format!("c08-ring-features-{}", d.name()));
+        for w in [0u64, 1 << 28, 1 << 29, (1 << 28) | (1 << 29), (1 << 28) | (1 << 32), (1 << 29) | (1 << 32) | (1 << 33), (1 << 33)] {
+            let c = Case::plain(ctx, d, w); if let Some((b, _)) = model_case(ctx, &c) { drop_built(b); }
+            for (opc, arg) in ops_of(d) { op_case(ctx, d, w, opc, arg); }
+        }
+    }
+    drivers::release_observers();
+    crate::mmio::clear();
+}
+
 pub fn run(ctx: &mut Ctx) {
     for d in drivers::ALL {
         // ---- the model transport: every directed word ----
